@@ -110,7 +110,7 @@ OpsFor(st) == CASE Family = "interplay" -> {o \in OpsOn(st) : Interplay(o)}
                                            [] Len(hist) = 1 -> {o \in OpsOn(st) : (Representative(o) /\ o.op # "cfgenv") \/ (o.a = "v1" /\ o.op \in {"unsetvar", "unexport"})
                                                                                 \/ (o.op = "setexported" /\ o.a = "v1" /\ o.c = "spaces")}
                                            [] OTHER -> {})
-                [] Family = "persist" -> (CASE Len(hist) = 0 -> {o \in OpsOn(st) : o.op \in {"setopt", "shopt"} /\ o.b = "on"}
+                [] Family = "persist" -> (CASE Len(hist) = 0 -> {o \in OpsOn(st) : (o.op \in {"setopt", "shopt"} /\ o.b = "on") \/ (o.op = "pushd" /\ o.a \in {"sub1", "sub2"})}
                                             [] Len(hist) = 1 -> {o \in OpsOn(st) : Representative(o)}
                                             [] OTHER -> {})
                 [] OTHER -> OpsOn(st)
